@@ -162,7 +162,19 @@ def _scenario(rng, cfg, profile):
                        "share": {"mode": "none"}, "coeffs1d": False, "cls": "base"})
             sh["coeffs"] = [[_coef(rng)] for _ in sh["exps"]]
             ops.append(sh)
-        ops.append({"op": "new_container", "type": "list", "members": [0, 1]})
+        # a third shell further out (a second screened pair of the same block shape), and now and then a
+        # degenerate column (infinite norm_cont) on one of the shells
+        sh = g_new_shell(rng, cfg)
+        sh.update({"exps": [b], "coeffs": [[_coef(rng)]], "coord": {"mode": "fresh", "xyz": [0.0, dist * 1.7, 0.0]},
+                   "share": {"mode": "none"}, "coeffs1d": False, "cls": "base", "angmom": ops[-1]["angmom"]})
+        ops.append(sh)
+        lsame = ops[-1]["angmom"]
+        for o in ops[-3:]:
+            o["angmom"] = lsame  # equal block shapes
+        if rng.random() < 0.4:
+            tgt = ops[-3 + rng.randrange(3)]
+            tgt["coeffs"] = [[0.0] for _ in tgt["coeffs"]]
+        ops.append({"op": "new_container", "type": "list", "members": [0, 1, 2]})
         q = g_query(rng, quiet, fn="overlap_integral")
         q["params"]["tol_screen"] = tol
         q["keep"] = None
@@ -171,7 +183,7 @@ def _scenario(rng, cfg, profile):
         for _ in range(2):
             u = g_update(rng, quiet)
             u.update({"what": "exps", "how": rng.choice(["inplace", "rebind"]),
-                      "factor": rng.choice([0.6, 0.75, 1.3, 1.6]), "sd": rng.randrange(2)})
+                      "factor": rng.choice([0.6, 0.75, 1.3, 1.6]), "sd": rng.randrange(3)})
             ops.append(u)
             ops.append(dict(q))
     elif name == "iodata_twice":
@@ -311,7 +323,7 @@ def g_new_shell(rng, cfg):
         f = rng.choice([1e-5, 1e-9, 1e-3, 1e4])
         for row in coeffs:
             row[j] *= f
-    if rng.random() < 0.04:  # a degenerate but accepted contraction: one column of zeros (infinite norm_cont)
+    if rng.random() < 0.07:  # a degenerate but accepted contraction: one column of zeros (infinite norm_cont)
         j = rng.randrange(M)
         for row in coeffs:
             row[j] = 0.0
